@@ -163,7 +163,10 @@ Inductive sexpr :=
 | BinS (dname : string) (e : sexpr) (c : A)          (* ... o a non-iterable *)
 | AbsE (e : sexpr)                                   (* abs(e) *)
 | AttrE (name : string) (e : sexpr)                  (* e.name through Stream.__getattr__ *)
-| CallE (e : sexpr) (args : list A) (kw : list (string * A)).   (* e called with args and kw *)
+| CallE (e : sexpr) (args : list A) (kw : list (string * A))    (* e called with args and kw *)
+| FunE (g : A -> A) (e : sexpr).      (* wrapped(e, ...): an elementwise-decorated function applied to a Stream
+                                         expression, g = the function with its other arguments fixed; a Stream of
+                                         g's values by the elementwise model (Proofs.ew_on_stream) *)
 
 Definition dres_stream (d : dres) : option (lseq A) :=
   match d with DStream s => Some s | _ => None end.
@@ -185,6 +188,7 @@ Fixpoint eval (e : sexpr) : option (lseq A) :=
   | AbsE e1 => match eval e1 with Some s => Some (abs_model s) | None => None end
   | AttrE n e1 => match eval e1 with Some s => getattr_model n s | None => None end
   | CallE e1 args kw => match eval e1 with Some s => Some (call_model s args kw) | None => None end
+  | FunE g e1 => match eval e1 with Some s => Some (lmap g s) | None => None end
   end.
 End Ops.
 
@@ -203,6 +207,7 @@ Arguments BinS {A} dname e c.
 Arguments AbsE {A} e.
 Arguments AttrE {A} name e.
 Arguments CallE {A} e args kw.
+Arguments FunE {A} g e.
 
 (* ------------------------------------------------------------------ elementwise *)
 (* the classes elementwise distinguishes (plus the ones it does not, to state that) *)
@@ -245,9 +250,6 @@ Variable f : list pyval -> list (string * pyval) -> A.
 
 Inductive ewres := EVal (v : pyval) | ERaise (e : string).
 
-Definition py_iterable (v : pyval) : bool := match v with PScalar _ => false | _ => true end.
-Definition py_isstr (v : pyval) : bool := match v with PStr _ => true | _ => false end.
-
 Fixpoint kw_get (name : string) (kw : list (string * pyval)) : option pyval :=
   match kw with
   | [] => None
@@ -279,7 +281,7 @@ Definition ew_model (name : string) (pos0 : option nat)
   | None => ERaise "KeyError"
   | Some arg =>
     match arg with
-    | PCont k vals =>
+    | PCont k vals =>        (* isinstance(arg, Iterable) and not isinstance(arg, STR_TYPES) *)
       let data :=
         if positional
         then lmap (fun x => f (firstn p args ++ [PScalar x] ++ skipn (S p) args) kwargs) vals
